@@ -282,6 +282,15 @@ def run(chk):
             p = os.path.join(wdir, "b%d_f%d.wb" % (wi, k))
             open(p, "w").write(reformat(rng, wj))
             docs.append((p, "format", "formatting variant", False, wi))
+    # corpus of minimised earlier failures, run on every tier
+    for ci, big in enumerate([1.7976931348623157e308, 1e200, 1e155, -1e200]):
+        for where in ((0, 1), (0, 0), (1, 1)):
+            cw = {"version": "1.1", "features": [{"model": "oceanic plate", "name": "f0", "coordinates": [[0, 0], [1e5, 0], [1e5, 1e5], [0, 1e5]],
+                                                   "max depth": [[105658.0], [103342.0, [[5e4, 4e4], [2e4, 7e4]]]]}]}
+            cw["features"][0]["max depth"][1][1][where[0]][where[1]] = big
+            p = os.path.join(wdir, "corpus_%d_%d%d.wb" % (ci, where[0], where[1]))
+            open(p, "w").write(json.dumps(cw))
+            docs.append((p, "structure", "D29 corpus: depth-surface point coordinate %g" % big, None, 0))
     verdicts = schema_verdicts([d[0] for d in docs])
     # one process per document would be slow: batch, the resilient runner restarts after a death
     lines, owner = [], []
